@@ -313,6 +313,10 @@ class C02(PropertyCheck):
         "QipVerif.C02.cbits_reported",
         "QipVerif.C02.dm_eq_mixture_partial",
         "QipVerif.C02.dm_mixture_or_refuse",
+        "QipVerif.C02.branch_prob",
+        "QipVerif.C02.unitary_preserves_norm",
+        "QipVerif.C02.embed_unitary_preserves_norm",
+        "QipVerif.C02.probs_sum_one_born",
         "QipVerif.C02.C02_counterexample_ccv_out_of_range",
         "QipVerif.C02.C02_counterexample_cbits_alias",
         "QipVerif.C02.C02_counterexample_dm_feedforward",
